@@ -59,6 +59,8 @@ def _classify(ctx: Ctx, s: Site) -> tuple[bool, str]:
     key = (s.cls.name, s.fi.name, s.attr)
     if key in DESIGNATED:
         return True, f"designated: {DESIGNATED[key]}"
+    if _class_level_mutable(s.cls, s.attr):
+        return False, f"self.{s.attr} is a class-level container shared by every instance (and subclass): per-instance results (bound methods, per-context data) written into it leak between instances"
     if s.kind in ("rebind", "setitem"):
         later = value_mutated_after(s.fi, s.node, s.value)
         if later:
@@ -82,6 +84,22 @@ def _classify(ctx: Ctx, s: Site) -> tuple[bool, str]:
                 return True, "subscript load guarded by a membership test (cannot insert)"
         return False, "subscript load on a defaultdict inserts a key: a read path writes the shared index (and can break a concurrent iteration)"
     return False, f"in-place mutation ({s.kind}) of shared state outside a designated writer"
+
+
+def _class_level_mutable(ci, attr: str) -> bool:
+    """The attribute is defined at class level as a mutable container (ClassVar / plain class attribute), not per instance."""
+    for c in ci.mro:
+        ann = c.ann.get(attr)
+        val = c.attrs.get(attr)
+        if ann is not None and unparse(ann).startswith(("ClassVar", "typing.ClassVar")):
+            return True
+        if val is not None and isinstance(val, (ast.Dict, ast.List, ast.Set)):
+            return True
+        if val is not None and isinstance(val, ast.Call) and unparse(val.func) in ("dict", "list", "set", "defaultdict"):
+            return True
+        if ann is not None or val is not None:
+            return False
+    return False
 
 
 def _emit_sites(ctx: Ctx, what: str) -> None:
@@ -115,6 +133,15 @@ def _marker_obligations(ctx: Ctx) -> None:
         ok0 = bool(pubs) and all(g0.must_pass(g0.entry, g0.node_of(mk).id, [p_.id for p_ in pubs if p_]) for mk in marks)
         ctx.ob(f"XmlContext.{m.name}: the validity marker sys_modules is stored only after the index it validates was published (in the same function)", ok0, at=m, node=marks[0], construct=f"marker order {m.name}",
                msg="the marker becomes valid before the index is rebuilt: other threads skip the rebuild and read the stale / empty index (no class found, xsi:type ignored)")
+    lm = ctx.repo.func("xsdata.formats.dataclass.context:XmlContext.local_names_match")
+    ev = [(st, tgt, v) for st, tgt, v in stores(lm.node) if isinstance(tgt, ast.Subscript) and is_self_attr(tgt.value, "xsi_cache")]
+    for st, tgt, v in ev:
+        comp_ok = isinstance(v, ast.ListComp) and len(v.generators) == 1 and v.generators[0].ifs and any(
+            isinstance(c, ast.Compare) and isinstance(c.ops[0], (ast.IsNot, ast.NotEq)) and "clazz" in {unparse(c.left), unparse(c.comparators[0])} for c in v.generators[0].ifs)
+        src = unparse(v.generators[0].iter) if isinstance(v, ast.ListComp) else ""
+        old_entry = src == f"self.xsi_cache[{unparse(tgt.slice)}]" or any(unparse(t2) == src and unparse(v2) == f"self.xsi_cache[{unparse(tgt.slice)}]" for _, t2, v2 in stores(lm.node) if v2 is not None)
+        ctx.ob("local_names_match evicts exactly the unbindable class: the new entry is the old entry filtered by `is not clazz`", comp_ok and old_entry, at=lm, node=st, construct="eviction filter",
+               msg="the eviction drops other classes that share the qualified name: after one failing decode a shared context no longer finds a valid model by qname")
     b = ctx.repo.func("xsdata.formats.dataclass.context:XmlContext.build_xsi_cache")
     g = build_cfg(b.node)
     pub = [g.node_of(st) for st, tgt, v in stores(b.node) if is_self_attr(tgt, "xsi_cache")]
